@@ -3,7 +3,8 @@
 (* Tier B – src/algorithms/myers.rs (`diff_deadline`, `conquer`,           *)
 (* `find_middle_snake`) as a stack machine.  The recursion of `conquer`    *)
 (* is a stack of tasks:                                                    *)
-(*    box   a (sub)problem: strip common prefix/suffix, trivial cases      *)
+(*    box   a (sub)problem: strip and report the common prefix             *)
+(*    box2  strip the common suffix, trivial cases, or schedule the search *)
 (*    mid   run the middle-snake search on a stripped box                  *)
 (*    emit  one hook call (its own step, so that a failing call can be     *)
 (*          injected at every call index)                                  *)
@@ -62,22 +63,29 @@ TFin == <<4, 0, 0, 0, 0>>
 Get(v, k) == IF k \in DOMAIN v THEN v[k] ELSE 0
 Put(v, k, val) == [j \in DOMAIN v \cup {k} |-> IF j = k THEN val ELSE v[j]]
 
-\* ---- conquer(): returns the tasks replacing the box, and the comparisons made
+\* ---- conquer(), first half: strip the common prefix and report it (the hook call
+\* happens before the suffix is looked at, so a failing call skips those comparisons)
 ConquerTasks(x, b) ==
   LET lv == b.lv
       p == PrefixC(x, lv, b.os, b.oe, b.ns, b.ne, 0)
-      os == b.os + p[1]
-      ns == b.ns + p[1]
+      pre == IF p[1] > 0 THEN <<Emit(lv, TEq(b.os, b.ns, p[1]))>> ELSE <<>>
+  IN [tasks |-> pre \o <<[k |-> "box2", lv |-> lv, os |-> b.os + p[1], oe |-> b.oe, ns |-> b.ns + p[1], ne |-> b.ne]>>,
+      cmps |-> p[2]]
+
+\* ---- conquer(), second half: strip the common suffix, trivial cases or the search
+Conquer2Tasks(x, b) ==
+  LET lv == b.lv
+      os == b.os
+      ns == b.ns
       s == SuffixC(x, lv, os, b.oe, ns, b.ne, 0)
       oe == b.oe - s[1]
       ne == b.ne - s[1]
-      pre == IF p[1] > 0 THEN <<Emit(lv, TEq(b.os, b.ns, p[1]))>> ELSE <<>>
       suf == IF s[1] > 0 THEN <<Emit(lv, TEq(oe, ne, s[1]))>> ELSE <<>>
       midl == IF os >= oe /\ ns >= ne THEN <<>>
               ELSE IF ns >= ne THEN <<Emit(lv, TDel(os, oe - os, ns))>>
               ELSE IF os >= oe THEN <<Emit(lv, TIns(os, ns, ne - ns))>>
               ELSE <<[k |-> "mid", lv |-> lv, os |-> os, oe |-> oe, ns |-> ns, ne |-> ne]>>
-  IN [tasks |-> pre \o midl \o suf, cmps |-> p[2] + s[2]]
+  IN [tasks |-> midl \o suf, cmps |-> s[2]]
 
 \* ---- forward pass of one d iteration over k = d, d-2, .., -d
 RECURSIVE Fwd(_, _, _, _, _, _)
@@ -130,6 +138,9 @@ Push(m, items) == items \o Tail(m.stack)          \* replace the top task by `it
 MConquer(x, m) ==
   LET r == ConquerTasks(x, Top(m)) IN [m EXCEPT !.stack = Push(m, r.tasks), !.cmps = @ + r.cmps]
 
+MConquer2(x, m) ==
+  LET r == Conquer2Tasks(x, Top(m)) IN [m EXCEPT !.stack = Push(m, r.tasks), !.cmps = @ + r.cmps]
+
 MStartSnake(m) ==
   LET b == Top(m) IN
   [m EXCEPT !.fm = [d |-> 0, lv |-> b.lv, os |-> b.os, oe |-> b.oe, ns |-> b.ns, ne |-> b.ne,
@@ -177,6 +188,7 @@ MyersInit(os, oe, ns, ne) == MInit(<<Box(0, os, oe, ns, ne), [k |-> "fin"]>>)
 
 MyersStep(x, m, probe, exp, fail) ==
   CASE MKind(m) = "box" -> MConquer(x, m)
+    [] MKind(m) = "box2" -> MConquer2(x, m)
     [] MKind(m) = "mid" -> MStartSnake(m)
     [] MKind(m) = "snake" -> MSnake(x, m, probe, exp)
     [] MKind(m) = "emit" -> MUserCall(m, Top(m).t, fail)
